@@ -173,6 +173,15 @@ Example C01_handle_example :
   /\ okt = true /\ rem = [903] /\ bytes2 = firstn 500 bytes.
 Proof. vm_compute. repeat split; reflexivity. Qed.
 
+(* the alternative seek of OFS volumes (adfFileSeekOFS_: back to the start, then along the data blocks), which adfFileSeek falls back to when the
+   extension-block walk fails: started from ANY clean state of the handle whose volume and header are those of a coherent state (the cursor
+   fields may be anything), it ends coherent at the requested position with the same content - the place the table-driven seek reaches *)
+Theorem C01_ofs_fallback_seek_reaches_the_position : forall bs ofs key, 0 < bs -> forall eofk s t L E ct p,
+  Inv bs ofs key t L E -> chg t = false -> Repr bs t L ct -> CB bs ofs key s L E -> len (d_bytes (cdata s)) = bs ->
+  dk s = dk t -> fh s = fh t -> 0 <= p < fsize s ->
+  exists s', seek_ofs bs ofs nobad eofk s p = (true, s') /\ Inv bs ofs key s' L E /\ Repr bs s' L ct /\ pos s' = p /\ cur s' <> 0.
+Proof. exact seek_ofs_ok. Qed.
+
 (* ---- every history ---- *)
 (* `Reach s ct` (Proofs/FileIOReachP.v): s is reached from a new file, or from a file lying anywhere on a volume, by any sequence of reads,
    seeks, writes, truncations (shrinking / growing / same size), flushes and close-and-reopen, with an allocator that names only blocks the
@@ -207,6 +216,7 @@ Qed.
 
 Print Assumptions C01_geometry_pos.
 Print Assumptions C01_every_reachable_handle_state.
+Print Assumptions C01_ofs_fallback_seek_reaches_the_position.
 Print Assumptions C01_read_after_any_history.
 Print Assumptions C01_seek_after_any_history.
 Print Assumptions C01_geometry_datablocks.
